@@ -92,3 +92,46 @@ Fixpoint zip_eqb (a b : list (res zaff)) : list bool :=
   end.
 Definition run_diff (env : list zaff) (ops : list op) (expected : list (res zaff)) : list bool :=
   zip_eqb (run env ops) expected.
+
+(* ---------------------------------------------------------------- general CoordinateMap (Z instance) *)
+From NV.C01 Require Import CMap.
+Definition zcm := cmap Z.
+Definition zcm_of (a : zaff) : zcm := cm_of_aff Z 0%Z 1%Z Z.add Z.mul a None.
+
+Inductive cop :=
+| CReorderDom (order : list nat)
+| CReorderRng (order : list nat)
+| CRenameDom (nn : list (string * string))
+| CRenameRng (nn : list (string * string))
+| CComposeLeft (other : zaff)     (* compose(other_as_cmap, current) *)
+| CComposeRight (other : zaff)    (* compose(current, other_as_cmap) *)
+| CProductWith (other : zaff).
+
+Definition cm_step (c : zcm) (o : cop) : res zcm :=
+  match o with
+  | CReorderDom order => cm_reordered_domain Z 0%Z 1%Z Z.add Z.mul c order
+  | CReorderRng order => cm_reordered_range Z 0%Z 1%Z Z.add Z.mul c order
+  | CRenameDom nn => cm_renamed_domain Z c nn
+  | CRenameRng nn => cm_renamed_range Z c nn
+  | CComposeLeft other => cm_compose Z [zcm_of other; c]
+  | CComposeRight other => cm_compose Z [c; zcm_of other]
+  | CProductWith other => cm_product Z [c; zcm_of other] "product" "product"
+  end.
+
+Fixpoint cm_run (c : zcm) (ops : list cop) : res zcm :=
+  match ops with
+  | [] => Ok c
+  | o :: rest => bind (cm_step c o) (fun c' => cm_run c' rest)
+  end.
+
+(* expected: None = the implementation refused somewhere in the chain;
+   Some (domain names, range names, value at x) otherwise *)
+Definition cm_chain_agrees (a : zaff) (ops : list cop) (x : list Z)
+           (expected : option (list string * list string * list Z)) : bool :=
+  match cm_run (zcm_of a) ops, expected with
+  | Err _, None => true
+  | Ok c, Some (dn, rn, y) =>
+      strl_eqb (cnames (cdom c)) dn && strl_eqb (cnames (crng c)) rn &&
+      match cm_apply Z c x with Ok v => zlist_eqb v y | Err _ => false end
+  | _, _ => false
+  end.
